@@ -1102,6 +1102,35 @@ impl<'a, 'b, 'ast> Visit<'ast> for Collector<'a, 'b> {
                     self.edits.push((sp.start, sp.end, text));
                 } }
             }
+            Expr::MethodCall(c) if rw.for_iter && c.method == "filter_map" && c.args.len() == 1
+                && matches!(&*c.receiver, Expr::MethodCall(it) if it.method == "iter" && it.args.is_empty())
+                && matches!(&c.args[0], Expr::Closure(cl) if cl.inputs.len() == 1 && matches!(&*cl.body, Expr::MethodCall(mp) if mp.method == "map" && mp.args.len() == 1 && matches!(&mp.args[0], Expr::Closure(c2) if c2.inputs.len() == 1))) => {
+                // R42 (option for_iter=1): `E.iter().filter_map(|P| C.map(|Q| B))` (consumed by a collecting callee) -> the Vec these adaptors yield:
+                //   `{ let mut out = Vec::new(); for P in E.iter() { match C { Some(Q) => out.push(B), None => {} } } out }`
+                //   (filter_map keeps the Some values in order; Option::map applies the inner closure to the payload; both closures are `Fn`)
+                if let (Expr::MethodCall(it), Expr::Closure(cl)) = (&*c.receiver, &c.args[0]) { if let Expr::MethodCall(mp) = &*cl.body { if let Expr::Closure(c2) = &mp.args[0] {
+                    let idx = rw.loop_idx.get();
+                    rw.loop_idx.set(idx + 1);
+                    let a = e.span().byte_range().start;
+                    let b = c2.body.span().byte_range().start;
+                    rw.loop_headers.borrow_mut().push(rw.src[a..b].split_whitespace().collect::<Vec<_>>().join(" "));
+                    let newv = match &rw.vec_elem { Some(t) => format!("Vec::<{t}>::new()"), None => "Vec::new()".to_string() };
+                    let p1 = rw.src[cl.inputs[0].span().byte_range()].trim().to_string();
+                    let p2 = rw.src[c2.inputs[0].span().byte_range()].trim().to_string();
+                    let src_it = rw.render_expr(&it.receiver);
+                    let cond = rw.render_expr(&mp.receiver);
+                    let body = rw.render_expr(&c2.body);
+                    let inv = rw.section(&format!("loop {idx}")).map(|t| mark(t)).unwrap_or_default();
+                    let braw = rw.section(&format!("loop {idx} begin-raw")).map(|t| format!("{}\n", mark(t))).unwrap_or_default();
+                    let begin = rw.section(&format!("loop {idx} begin")).map(|t| format!("proof {{ //@p\n{}\n}} //@p\n", mark(t))).unwrap_or_default();
+                    let end = rw.section(&format!("loop {idx} end")).map(|t| format!("proof {{ //@p\n{}\n}} //@p\n", mark(t))).unwrap_or_default();
+                    let after = rw.section(&format!("loop {idx} after")).map(|t| format!("proof {{ //@p\n{}\n}} //@p\n", mark(t))).unwrap_or_default();
+                    let text = format!("({{ let mut __fout{idx} = {newv};\nmatch ({src_it}.iter()).into_iter() {{ mut __it{idx} => {{\nloop\n{inv}\n{{ match __it{idx}.next() {{ Some({p1}) => {{\n{braw}{begin}let __o{idx} = {cond};\nmatch __o{idx} {{ Some({p2}) => {{ let __y{idx} = {body}; __fout{idx}.push(__y{idx}); }} None => {{}} }}\n{end} }} None => {{ break; }} }} }}\n }} }}\n{after} __fout{idx} }})");
+                    rw.count("R42");
+                    let sp = e.span().byte_range();
+                    self.edits.push((sp.start, sp.end, text));
+                } } }
+            }
             Expr::MethodCall(c) if rw.for_iter && c.method == "flat_map" && c.args.len() == 1
                 && matches!(&*c.receiver, Expr::Call(z) if z.args.len() == 2 && matches!(&*z.func, Expr::Path(p) if p.path.is_ident("zip")) && matches!((&z.args[0], &z.args[1]), (Expr::Array(a), Expr::Array(b)) if a.elems.len() == b.elems.len()))
                 && matches!(&c.args[0], Expr::Closure(cl) if cl.inputs.len() == 1 && matches!(&*cl.body, Expr::MethodCall(mp) if mp.method == "map" && mp.args.len() == 1 && matches!(&mp.args[0], Expr::Closure(c2) if c2.inputs.len() == 1) && matches!(&*mp.receiver, Expr::MethodCall(it) if it.method == "iter" && it.args.is_empty()))) => {
